@@ -6,7 +6,7 @@
    Checker: SpecLayout.fits_b.  Only property theorems live here. *)
 From RichModel Require Import Prelude Cells Segments Ratio Frames Layout SpecLayout.
 From RichModel Require Table Wrap.
-From RichProofs Require Import LayoutP LayoutP2 LayoutP8 LayoutP9 LayoutP3 LayoutP4 LayoutP5 LayoutP6 LayoutP7.
+From RichProofs Require Import LayoutP LayoutP2 LayoutP8 LayoutP9 LayoutP10 LayoutP3 LayoutP4 LayoutP5 LayoutP6 LayoutP7.
 (* T2 tie: ratio_reduce/ratio_distribute/_collapse_widths and the measurement arithmetic regenerated from /repo and proved equal to the hand model *)
 From RichProofs.bridge Require BridgeRatio BridgeMeasure.
 
@@ -84,14 +84,16 @@ Print Assumptions C01_collapse_keeps_columns.
 Example C01_collapse_nonvacuous : collapse_widths [7; 7; 7] [true; true; true] 4 = Ok [1; 1; 2].
 Proof. vm_compute. reflexivity. Qed.
 
-(* (b) _calculate_column_widths (repaired code, every path: ratio columns, collapse, re-measure, expand) never
-   hands out more than the budget, and exactly the budget when the table expands *)
-Theorem C01_calc_widths_fits : forall o cols M ws,
-  Table.o_width o = None -> Table.o_minw o = None -> cols <> [] -> Forall col_free cols ->
-  (let '(t, r, b, l) := Table.o_pad o in 0 <= r /\ 0 <= l) ->
-  zlen cols <= M -> Table.calc_widths false false o cols M = Ok ws ->
+(* (b) _calculate_column_widths (repaired code, every path: ratio columns, collapse, re-measure, expand, table
+   min_width) never hands out more than the budget, and exactly the budget when the table expands -- for both
+   variants fm of the flexible minimum of ratio columns (fm = false: rich today; fm = true: with
+   fixes/C07_ratio_column_minimum.diff; Layout.v uses the regenerated fact BoxChars.FLEXMIN_MEASURED, so the
+   theorems hold for whichever tree is checked) *)
+Theorem C01_calc_widths_fits : forall fm o cols M ws,
+  cols <> [] -> Forall col_free cols -> pad_ok o ->
+  zlen cols <= M -> Table.calc_widths_x fm false false o cols M = Ok ws ->
   length ws = length cols /\ Forall (fun w => 1 <= w) ws /\ sumZ ws <= M /\ (Table.t_expand o = true -> sumZ ws = M).
-Proof. exact calc_widths_fits. Qed.
+Proof. exact calc_widths_x_fits. Qed.
 Print Assumptions C01_calc_widths_fits.
 
 (* (c) below one cell per column: the collapse leaves every column at 0 or 1 cell (the water-filling is
@@ -107,11 +109,11 @@ Print Assumptions C01_collapse_below_column_count.
 Example C01_collapse_below_nonvacuous : collapse_widths [5; 2; 9] [true; true; true] 2 = Ok [1; 0; 1].
 Proof. vm_compute. reflexivity. Qed.
 
-Theorem C01_calc_widths_bound : forall o cols M ws,
+Theorem C01_calc_widths_bound : forall fm o cols M ws,
   cols <> [] -> Forall col_free cols -> pad_ok o ->
-  Table.calc_widths false false o cols M = Ok ws ->
+  Table.calc_widths_x fm false false o cols M = Ok ws ->
   length ws = length cols /\ Forall (fun w => 1 <= w) ws /\ sumZ ws <= Z.max M (zlen cols).
-Proof. exact calc_widths_bound_minw. Qed.
+Proof. exact calc_widths_x_bound. Qed.
 Print Assumptions C01_calc_widths_bound.
 
 (* (the table's own min_width option is inside the domain: it pads up to min(min_width, budget) only)
